@@ -48,7 +48,8 @@ class Job:
     flags: list = field(default_factory=list)
     remove_bodies: list = field(default_factory=list)
     timeout: int = 300
-    mem_gb: int = 12
+    mem_gb: int = 12        # hard cap (ulimit -v)
+    est_gb: float = 2       # expected peak, used for admission control (sum over running jobs <= 80% of RAM)
     tier: str = "quick"
     kf: str = None          # companion job of a known finding: expected to FAIL while status=known
     witness: bool = True
@@ -59,6 +60,7 @@ class Job:
     cfg_patch: dict = None   # {"COAP_THREAD_SAFE": "1"} -> patched copy of coap_defines.h
     native_replay: bool = True
     solver: list = field(default_factory=list)  # e.g. ["--sat-solver","cadical"]
+    witness_violation: str = None   # if set: an unreachable witness is itself the violation (e.g. no completing schedule)
     group: str = ""
 
 
@@ -454,7 +456,53 @@ def native_replay(ctx, job, jobdir, inputs, kf_excludes=()):
 
 
 # --------------------------------------------------------------------------
+class MemGate:
+    """Admission control: the sum of the memory caps of running jobs stays below the budget (no OOM killer)."""
+    def __init__(self, budget_gb):
+        import threading
+        self.budget = budget_gb
+        self.used = 0
+        self.cv = threading.Condition()
+
+    def acquire(self, gb):
+        gb = min(gb, self.budget)
+        with self.cv:
+            while self.used + gb > self.budget:
+                self.cv.wait()
+            self.used += gb
+        return gb
+
+    def release(self, gb):
+        with self.cv:
+            self.used -= gb
+            self.cv.notify_all()
+
+
+def _mem_budget_gb():
+    try:
+        for l in open("/proc/meminfo"):
+            if l.startswith("MemAvailable:"):
+                return max(8, int(int(l.split()[1]) / (1 << 20) * 0.8))
+    except Exception:
+        pass
+    return 32
+
+
+MEMGATE = None
+
+
 def run_job(ctx, job):
+    global MEMGATE
+    if MEMGATE is None:
+        MEMGATE = MemGate(_mem_budget_gb())
+    got = MEMGATE.acquire(job.est_gb)
+    try:
+        return run_job_inner(ctx, job)
+    finally:
+        MEMGATE.release(got)
+
+
+def run_job_inner(ctx, job):
     """Runs main query + twin. Returns result dict."""
     res = {"job": job.name, "group": job.group or job.name.split("@")[0], "desc": job.desc, "entry": job.entry, "units": job.units, "bounds": job.bounds,
            "unwind": job.unwind, "unwindset": job.unwindset, "tier": job.tier, "kf": job.kf}
@@ -544,8 +592,17 @@ def run_job(ctx, job):
         pw = parse_cbmc(outw)
         wprops = [p for p in pw["props"] if classify(p) == "witness"]
         res["twin"] = {p.get("description"): p.get("status") for p in wprops}
-        if not wprops or any(p.get("status") != "FAILURE" for p in wprops):
-            res.update(verdict="inconclusive", reason="vacuity twin did not fail: %s" % res["twin"])
+        # at least one reachability witness must be violated (= reachable)
+        if not any(p.get("status") == "FAILURE" for p in wprops):
+            if job.witness_violation and wprops:
+                res["verdict"] = "fail"
+                res["picked"] = {"property": "witness", "desc": job.witness_violation, "class": "liveness",
+                                 "file": job.harness, "line": None, "function": job.entry}
+                res["failed"] = [res["picked"]]
+                res["inputs"] = {}
+                res["replay"] = {"status": "unavailable", "output": "reachability obligation: the solver proved that no execution reaches the witness"}
+            else:
+                res.update(verdict="inconclusive", reason="vacuity twin did not fail: %s" % res["twin"])
     return res
 
 
@@ -578,6 +635,8 @@ def kf_matches(entry, res):
 
 
 def run_check(prop, tier, jobs, meta, jobfilter=None, keep=False, workers=None):
+    global MEMGATE
+    MEMGATE = MemGate(_mem_budget_gb())
     seed = int(os.environ.get("VERIF_SEED", "0") or 0)
     ctx = Ctx(prop, tier, keep)
     t0 = time.time()
